@@ -7,13 +7,15 @@ import tree_streams as TS
 
 MODULE = "Props.C05"
 THEOREMS = ["C05_bucket_seed_order_independent", "C05_entity_seed_order_independent", "C05_noise_depends_on_seeds_only", "C03_hashStrings_set",
-            "addRow_relabel", "C05_add_row_position_independent", "C05_tree_position_independent", "C05_count_position_independent"]
+            "addRow_relabel", "C05_add_row_position_independent", "C05_tree_position_independent", "C05_count_position_independent",
+            "harvest_sim_all", "C05_harvest_position_independent", "C05_buckets_equal"]
 PARTIAL = ["determinism of the implementation = 'implementation equals the (pure, functional) Lean model in every environment': established by "
            "bit-exact correspondence in this process and by equal digests across fresh interpreters with different PYTHONHASHSEED and perturbed global RNG state; "
-           "T05.b for trees and released counts is a Lean theorem (C05_tree_position_independent: the tree over a table that agrees on the "
-           "combination's columns up to a renaming of positions is the renamed tree; stated for the generic scalar, so also for the Float "
-           "model); that the per-column inputs (root ranges, null stand-ins, name seeds) are functions of the column alone, and the equality "
-           "of harvested bucket lists, are evaluated by the oracle on table / superset / moved-column triples (full dumps, bucket lists)",
+           "T05.b is a Lean theorem for trees, released counts and harvested bucket lists (C05_tree_position_independent, "
+           "C05_harvest_position_independent / C05_buckets_equal: over a table that agrees on the combination's columns up to an injective "
+           "renaming of positions the tree is the renamed tree and the buckets are the same, with the same random draws; stated for the generic "
+           "scalar, so also for the Float model); that the per-column inputs (root ranges, null stand-ins, name seeds) are functions of the "
+           "column alone is by construction of Forest.init and evaluated by the oracle on table / superset / moved-column triples",
            "for a column set whose columns appear in a different relative order the trees are compared up to the dimension permutation; refined buckets are "
            "not claimed equal there (matching cycles dimensions in index order)"]
 ASSUMPTIONS = ["CPython random.Random(seed) is a deterministic function of its seed and call sequence"]
